@@ -36,6 +36,7 @@ def conditions(tier):
     cs.append(C(H16, "legacy", "h_legacy_array", t=2 * T, key="legacy-array"))
     for (h, w) in ([(2, 3)] if q else [(2, 3), (3, 2), (1, 2), (2, 2)]):
         cs.append(C(H16, "compass", "h_compass", h, w, t=4 * T, key="compass"))
+        cs.append(C(H16, "heyawake", "h_heyawake_rect", h, w, t=T, key="heyawake-rectangular-form"))
     return cs
 
 
